@@ -31,6 +31,9 @@ type Bcast struct {
 type Follow struct {
 	K string `json:"k"` // ladd | lrem | chat | task | build | mark | login
 	N int    `json:"n"`
+	// scale: the follow-up is sent this many times (0 = once), e.g. that many further login
+	// attempts on the one connection
+	Rep int `json:"rep,omitempty"`
 }
 
 type CaseA struct {
@@ -339,6 +342,14 @@ func genA(t *rapid.T) CaseA {
 	default:
 		c.Raw, _ = json.Marshal(msg)
 	}
+	if c.Pad == 0 && scaleShare(t, "scale-size?", 30) {
+		// scale: the first message, whatever it is, is brought to a threshold-adjacent total
+		// size by trailing blanks (64 ... 64 Ki; the 1 MiB class above stays)
+		total := rapid.SampledFrom(firstSizePool).Draw(t, "scale-size")
+		if total > len(c.Raw) {
+			c.Pad = total - len(c.Raw)
+		}
+	}
 	if !c.Binary {
 		c.Binary = rapid.Bool().Draw(t, "binary-frame") // the real client sends binary frames; text is also tried
 	}
@@ -382,7 +393,35 @@ func genA(t *rapid.T) CaseA {
 	for i := 0; i < nf; i++ {
 		c.Follow = append(c.Follow, Follow{K: rapid.SampledFrom([]string{"ladd", "lrem", "chat", "task", "build", "mark", "login"}).Draw(t, "fk"), N: rapid.IntRange(0, 3).Draw(t, "fn")})
 	}
+	if scaleShare(t, "scale-follow?", 24) {
+		// scale: one follow-up (placed before, between or after the others) is repeated a
+		// threshold-adjacent number of times; half of the time it is a further login attempt
+		f := Follow{K: rapid.SampledFrom([]string{"login", "login", "login", "chat", "task", "ladd", "mark"}).Draw(t, "scale-fk"), N: rapid.IntRange(0, 3).Draw(t, "scale-fn"),
+			Rep: rapid.SampledFrom(followRepPool).Draw(t, "scale-rep")}
+		at := rapid.IntRange(0, len(c.Follow)).Draw(t, "scale-at")
+		c.Follow = append(c.Follow[:at], append([]Follow{f}, c.Follow[at:]...)...)
+	}
 	return c
+}
+
+// scale pools of (a): total size of the first message (bytes); repetitions of one follow-up
+var firstSizePool = []int{63, 64, 65, 127, 128, 129, 255, 256, 257, 511, 512, 513, 999, 1000, 1001, 1023, 1024, 1025, 2047, 2048, 2049, 4095, 4096, 4097, 8191, 8192, 8193, 16383, 16384, 16385, 65535, 65536, 65537}
+var followRepPool = []int{63, 64, 65, 127, 128, 129, 255, 256, 257, 511, 512, 513, 999, 1000, 1001, 1023, 1024, 1025}
+
+func scaleBucketA(n int) string {
+	switch {
+	case n < 63:
+		return ""
+	case n < 255:
+		return "64-129"
+	case n < 999:
+		return "255-513"
+	case n < 2047:
+		return "999-1025"
+	case n < 8191:
+		return "2047-4097"
+	}
+	return "8191+"
 }
 
 // ------------------------------------------------------------------ interpreter
@@ -586,6 +625,11 @@ func runA(raw json.RawMessage) *core.Violation {
 	ts := fx.TS
 	rd := readFirst(append(append([]byte(nil), c.Raw...), []byte(strings.Repeat(" ", c.Pad))...), c.Users)
 	wsx.Obs("reading:" + rd.verdict.String())
+	for _, l := range classifyA(c).Labels {
+		if strings.HasPrefix(l, "scale:") {
+			wsx.Obs("class:" + l) // (the evidence keeps the 60 most frequent labels only)
+		}
+	}
 
 	// ---- setup: agents, listeners, operator B
 	for i := 0; i < c.Agents; i++ {
@@ -770,7 +814,11 @@ func runA(raw json.RawMessage) *core.Violation {
 			user = c.Users[0].Name
 		}
 		b, _ := json.Marshal(followPkg(f, w, user))
-		a.Send(websocket.BinaryMessage, b)
+		for i := 0; i < f.Rep || i == 0; i++ {
+			if a.Send(websocket.BinaryMessage, b) != nil && i > 0 {
+				break // the socket is gone (a refusal ends with the server closing it): nothing more can be sent
+			}
+		}
 	}
 	postFrom := len(w.allB)
 	for _, b := range c.Post {
@@ -1005,22 +1053,35 @@ func classifyA(c CaseA) core.Class {
 	if len(c.Post) > 0 {
 		cl.Labels = append(cl.Labels, "broadcast-after-reply")
 	}
+	scale := ""
 	for _, f := range c.Follow {
 		cl.Labels = append(cl.Labels, "follow:"+f.K)
+		if b := scaleBucketA(f.Rep); b != "" {
+			k := "other"
+			if f.K == "login" {
+				k = "login"
+			}
+			cl.Labels = append(cl.Labels, "scale:follow-ups-"+k+":"+b)
+			scale += "|rep-" + k + ":" + b
+		}
+	}
+	if n := len(c.Raw) + c.Pad; c.Pad > 0 && c.Pad < 1<<20 {
+		cl.Labels = append(cl.Labels, "scale:first-message-bytes:"+scaleBucketA(n))
+		scale += "|size:" + scaleBucketA(n)
 	}
 	if c.Agents > 0 {
 		cl.Labels = append(cl.Labels, "sessions-exist")
 	}
 	inflight := len(c.Pre) > 0 || len(c.Conc) > 0
 	cl.NonTrivial = rd.user != "" || inflight
-	cl.Fingerprint = fmt.Sprintf("%s|%s|op=%v|online=%v|B=%v|pre=%v|conc=%v|post=%v|fol=%v", key, rd.verdict, rd.user != "", online, c.B >= 0, len(c.Pre) > 0, len(c.Conc) > 0, len(c.Post) > 0, len(c.Follow) > 0)
+	cl.Fingerprint = fmt.Sprintf("%s|%s|op=%v|online=%v|B=%v|pre=%v|conc=%v|post=%v|fol=%v%s", key, rd.verdict, rd.user != "", online, c.B >= 0, len(c.Pre) > 0, len(c.Conc) > 0, len(c.Post) > 0, len(c.Follow) > 0, scale)
 	return cl
 }
 
 func TestC06a(t *testing.T) {
 	core.Run(t, core.Spec[CaseA]{
 		Property: "C06", Sub: "a",
-		Rule: "real Teamserver.Start() served on a harness listener; profile with 1-3 generated operators; socket A's first message from a grammar (the real client's login; per-field mutations absent/null/number/bool/array/object/extra on Head,Event,User,Time,OneTime,Body,SubEvent,Info,Info.User,Info.Password; all event/sub-event codes; unknown users; right user with wrong digest (random, truncated, another operator's, empty, plaintext, appended, upper-case); non-JSON, binary, empty, 1 MiB; duplicate/case-variant keys) x follow-ups (listener add/remove, chat, agent task, payload build, mark, second login) x broadcasts (agent registration, console output, mark, listener start, chat by an authenticated operator B) while A is silent / racing the handshake / after the reply. Oracle: A's complete frame list (exact: taken after the server side is closed) is [] before it speaks, [one InitConnection/Error] for every message that does not name an operator with its digest, Success+replay for the real client's login; refused => listeners, endpoints, agents, job queues, retained events, DB rows, service registries equal the state before A plus the harness's own operations, and B received only those; process survival is observed by running the case in a worker subprocess. Non-trivial: the message names an existing operator, or a broadcast happens while A is silent or during its handshake",
+		Rule: "real Teamserver.Start() served on a harness listener; profile with 1-3 generated operators; socket A's first message from a grammar (the real client's login; per-field mutations absent/null/number/bool/array/object/extra on Head,Event,User,Time,OneTime,Body,SubEvent,Info,Info.User,Info.Password; all event/sub-event codes; unknown users; right user with wrong digest (random, truncated, another operator's, empty, plaintext, appended, upper-case); non-JSON, binary, empty, 1 MiB; duplicate/case-variant keys) x follow-ups (listener add/remove, chat, agent task, payload build, mark, second login) x broadcasts (agent registration, console output, mark, listener start, chat by an authenticated operator B) while A is silent / racing the handshake / after the reply. Oracle: A's complete frame list (exact: taken after the server side is closed) is [] before it speaks, [one InitConnection/Error] for every message that does not name an operator with its digest, Success+replay for the real client's login; refused => listeners, endpoints, agents, job queues, retained events, DB rows, service registries equal the state before A plus the harness's own operations, and B received only those; process survival is observed by running the case in a worker subprocess. Non-trivial: the message names an existing operator, or a broadcast happens while A is silent or during its handshake. SCALE: in about 3 % of the cases the first message, whatever its class, is brought by trailing blanks to a total size from the threshold-adjacent pool {63,64,65, 127,128,129, ... 8191,8192,8193, 16383-16385, 65535-65537} bytes (label scale:first-message-bytes:<bucket>; the 1 MiB class stays), and in about 2.5 % one follow-up - in half of them a further login attempt with the right credentials on the same connection - is sent 63 ... 1025 times (threshold-adjacent pool cut at 1025; label scale:follow-ups-login / -other:<bucket>), before, between or after the other follow-ups; same oracle (exactly one error frame, nothing changed, B saw nothing)",
 		Gen:   genA, Check: checkA, Classify: classifyA,
 		Assumptions: []string{
 			"upper-case hex of the right digest, duplicate or case-variant JSON keys, and operator+digest combined with other event codes or ill-typed other fields may be refused or accepted (statement is silent); both outcomes are then checked for cleanliness",
